@@ -647,9 +647,10 @@ theorem C05_p2sh_multisig_size (m : Nat) (keys : List Bytes) (hmn : m ≤ keys.l
 /-- **Order independence of partial signing (combinatorial half).**  The list handed to the signature variables depends only
 on the *multiset* of `(key index, signature)` pairs collected — re-found in the input plus freshly made — not on the order in
 which they were collected, i.e. not on the order of earlier signing passes.
-Extra hypothesis relative to the property (hence `_partial`): that two orders of passes lead to the same multiset, which
-holds when ECDSA-verify accepts each emitted signature for its own key and for no other listed key (C01 + unforgeability);
-the harness checks the full statement on the implementation for every order of passes (n ≤ 4) and sampled beyond. -/
+Extra hypothesis relative to the property (hence `_partial`): that two orders of passes lead to the same multiset.  That
+hypothesis is discharged from the model in `C05_partial_order_independent_passes_partial` below (sequences of passes, each
+re-finding the signatures of the earlier ones by verification), leaving only the two unforgeability-style hypotheses; the
+harness checks the full statement on the implementation for every order of passes (n ≤ 4) and sampled beyond. -/
 theorem C05_partial_order_independent_partial (nSigs : Nat) (placeholder : Option Bytes) (ex₁ ex₂ : List (Int × Bytes))
     (h : ex₁.Perm ex₂) : assemble nSigs placeholder ex₁ = assemble nSigs placeholder ex₂ := by
   unfold assemble
